@@ -102,6 +102,27 @@ pub fn judge(ctx: &mut Ctx, b: &[u8], what: &str) {
                     }
                 }
             }
+            // "within the payload limits" includes the limit itself: a connection whose limit is exactly the
+            // declared length, one more, or the default (when the length fits it) must deliver the same request
+            let n = r1.content_length as usize;
+            if n > 0 {
+                for lim in [Some(n), Some(n + 1), None] {
+                    if lim.is_none() && n > 51200 {
+                        continue;
+                    }
+                    let o3 = run_stream(lim, b, &[], Gap::None, false);
+                    ctx.rep.count(if lim.is_none() { "forward_agreements_default_limit" } else { "forward_agreements_at_limit" });
+                    if o3.fault.is_some() || o3.delivered.first() != Some(r1) {
+                        ctx.rep.violation(
+                            "C14:oneshot-accepts-connection-differs",
+                            format!("[{}] one-shot parser returned {:?}; connection with payload limit {:?} (declared length {}): first={:?} error={:?} fault={:?}", what, r1, lim, n, o3.delivered.first(), o3.error, o3.fault),
+                            case_json(b, what, "->at-limit"),
+                        );
+                        return;
+                    }
+                    ctx.rep.distinct(Fp::new().bytes(b).u(3).u(lim.unwrap_or(0) as u64).0);
+                }
+            }
         }
     }
     // ---------------- (<-) connection delivers exactly one request with nothing left over
@@ -207,6 +228,18 @@ pub fn run(ctx: &mut Ctx) {
                 }
                 ctx.rep.count("requests_with_many_header_fields");
                 judge(ctx, &s, "many header fields");
+            }
+        }
+    }
+    // bodies around the default payload limit (51200): the one-shot parser has no payload limit, the connection's
+    // is inclusive, so up to and including 51200 both deliver the same request
+    if ctx.shard == 3 % ctx.nshards {
+        for n in [1usize, 1023, 1024, 1025, 4096, 51199, 51200] {
+            for (k, m) in ["PUT", "PATCH"].iter().enumerate() {
+                let mut s = format!("{} /limit/{} HTTP/1.{}\r\nContent-Length: {}\r\n\r\n", m, n, k, n).into_bytes();
+                s.extend((0..n).map(|i| b'a' + ((i + k) % 26) as u8));
+                ctx.rep.count("requests_with_body_around_default_limit");
+                judge(ctx, &s, "body around the default payload limit");
             }
         }
     }
